@@ -174,6 +174,9 @@ func runInstance(i int, in checks.Instance, dl time.Time) (r vp.InstResult) {
 		r.Points += res.Points
 		r.CapHits += res.CapHits
 		r.Pruned += res.Pruned
+		if res.Histories > r.Histories {
+			r.Histories = res.Histories
+		}
 		r.ViolExecs += res.ViolExecs
 		if res.States > r.States {
 			r.States = res.States
